@@ -74,7 +74,37 @@ extern "C" int harness_main() {
   std::vector<std::string> menu = split_words(sc->targets);
   std::string target = menu[menu.size() > 1 ? verif_choice("tool_target", (int)menu.size()) : 0];
   std::vector<std::string> targets; targets.push_back(target);
-#ifdef MODE_CLEAN
+#ifdef MODE_CLEANDEAD
+  // ------------------------------------------------------------------------------------------------ C18: -t cleandead after statements were removed from the manifest
+  (void)targets;
+  g_manifest_variant = 1; load_reference();
+  // (a former output that the new manifest uses as a source must still be there, or the new manifest cannot be built at all)
+  for (size_t i = 0; i < g_ref.size(); i++) for (size_t k = 0; k < g_ref[i].reads.size(); k++) if (!ref_producer(g_ref[i].reads[k])) VERIF_ASSUME(g_tree->exists(g_ref[i].reads[k]));
+  if (verif_bool("recompact_first")) { std::vector<std::string> a; a.push_back("-t"); a.push_back("recompact"); MainRun m0 = run_ninja(a); VERIF_ASSERT(m0.rc == 0, "C08: -t recompact succeeds"); verif_reach("recompacted"); }
+  if (verif_bool("build_first")) { InvocationOpts o; o.targets = split_words(sc->targets); o.run.parallelism = 1; InvocationResult r = invoke(o); VERIF_ASSERT(r.added && r.rc == 0, "the build with the new manifest succeeds"); load_reference(); }
+  // dead: recorded in the build log (an output of the old manifest) and appearing nowhere in the new graph
+  std::vector<std::string> dead, alive;
+  { State st; SymDisk d; std::string err; ManifestParser p(&st, &d); p.Load("build.ninja", &err);
+    State st0; int v = g_manifest_variant; g_manifest_variant = 0; ManifestParser p0(&st0, &d); p0.Load("build.ninja", &err); g_manifest_variant = v;
+    for (size_t i = 0; i < st0.edges_.size(); i++) { if (st0.edges_[i]->is_phony()) continue; for (size_t k = 0; k < st0.edges_[i]->outputs_.size(); k++) { const std::string& path = st0.edges_[i]->outputs_[k]->path();
+      Node* n = st.LookupNode(path); bool in_graph = n && (n->in_edge() || !n->out_edges().empty()); if (!in_graph && g_tree->exists(path)) dead.push_back(path); } } }
+  for (size_t i = 0; i < g_tree->files.size(); i++) if (g_tree->files[i].exists && index_of(dead, g_tree->files[i].name) < 0 && g_tree->files[i].name != ".ninja_lock") alive.push_back(g_tree->files[i].name);
+  std::string before = tree_snapshot();
+  { std::vector<std::string> a; a.push_back("-n"); a.push_back("-t"); a.push_back("cleandead"); MainRun m = run_ninja(a);
+    VERIF_ASSERT(m.rc == 0 && before == tree_snapshot(), "C18: a dry-run cleandead removes nothing");
+    bool all = true; for (size_t i = 0; i < dead.size(); i++) all = all && m.out.find("Remove " + dead[i] + "\n") != std::string::npos;
+    VERIF_ASSERT(all, "C18: a dry-run cleandead reports every file recorded in the build log that no longer appears in the graph"); }
+  { std::vector<std::string> a; a.push_back("-t"); a.push_back("cleandead"); MainRun m = run_ninja(a);
+    VERIF_ASSERT(m.rc == 0 && m.sink.started.empty(), "C18: cleandead succeeds and runs no command");
+    bool gone = true; for (size_t i = 0; i < dead.size(); i++) gone = gone && !g_tree->exists(dead[i]);
+    VERIF_ASSERT(gone, "C18: cleandead removes every file recorded in the build log that no longer appears anywhere in the graph");
+    bool kept = true; for (size_t i = 0; i < alive.size(); i++) kept = kept && g_tree->exists(alive[i]);
+    VERIF_ASSERT(kept, "C18: cleandead removes nothing else (sources, current outputs, former outputs that are now inputs)"); }
+  { InvocationOpts o; o.targets = split_words(sc->targets); o.run.parallelism = 1; InvocationResult r = invoke(o); VERIF_ASSERT(r.added && r.rc == 0, "C18: the build after cleandead succeeds"); load_reference();
+    assert_clean_equal(o.targets, "C18: after cleandead a build brings the targets up to date"); }
+  verif_reach(dead.empty() ? "nothing-dead" : "cleandead");
+  return 0;
+#elif defined(MODE_CLEAN)
   // ------------------------------------------------------------------------------------------------ C18 through ToolClean
   int mode = verif_choice("clean_mode", 4);       // all, all -g, target, -r rule
   std::vector<std::string> args; args.push_back("-t"); args.push_back("clean");
@@ -141,15 +171,20 @@ extern "C" int harness_main() {
     default: args.clear(); args.push_back("-n"); args.push_back("-j"); args.push_back("2"); args.push_back(target); break;
   }
   bool read_only = tool != T_RESTAT && tool != T_RECOMPACT;
-  // what a real build of the target has to run from this state (make semantics over contents; the C03 reference)
-  MinRef mr; std::vector<int> expect = mr.expected(targets);
+  // control experiment: what the real build of the target does from this very state when no tool has run (then the state is put back)
+  std::vector<int> expect;
+  { Tree saved_tree = *g_tree; LastRun saved_last[16]; for (int i = 0; i < 16; i++) saved_last[i] = g_last[i]; verif_vfs_save(1);
+    InvocationOpts o; o.targets = targets; o.run.parallelism = 1; InvocationResult r = invoke(o);
+    VERIF_ASSERT(r.parsed && r.loaded && r.added && r.rc == 0, "set-up: the control build succeeds"); expect = r.started;
+    *g_tree = saved_tree; for (int i = 0; i < 16; i++) g_last[i] = saved_last[i]; verif_vfs_restore(1); load_reference(); }
   std::string before = tree_snapshot();
   MainRun m = run_ninja(args);
   std::vector<std::string> L = lines_of(m.out);
   VERIF_ASSERT(m.sink.started.empty(), "C19: the tool executes no build command");
   if (read_only) VERIF_ASSERT(before == tree_snapshot(), "C19: the tool leaves every source, output, depfile and both logs unchanged");
   else { std::string a = tree_snapshot(); VERIF_ASSERT(before.substr(0, before.find("log=")) == a.substr(0, a.find("log=")), "C08: log maintenance touches no file but the logs"); }
-  VERIF_ASSERT(m.rc == 0 || (tool == T_MISSINGDEPS && m.rc == 3), "C19: the tool succeeds");
+  // (a dry run cannot get past a dyndep file that only the pretended command would have written)
+  VERIF_ASSERT(m.rc == 0 || (tool == T_MISSINGDEPS && m.rc == 3) || (tool == T_DRYRUN && (m.err + m.out).find("loading '") != std::string::npos), "C19: the tool succeeds");
   verif_obs(m.rc); verif_obs((long)L.size());
   // ---- what the tool prints is true
   bool missing_validation_command = false;
@@ -203,7 +238,7 @@ extern "C" int harness_main() {
         ok = ok && found; } }
     VERIF_ASSERT(ok && es.size() == expected_entries, "C19: compdb lists every input of every selected statement with its evaluated command");
     verif_reach("compdb");
-  } else if (tool == T_DRYRUN) {
+  } else if (tool == T_DRYRUN && m.rc == 0) {
     bool all = true; int listed = 0;
     for (size_t i = 0; i < g_ref.size(); i++) { if (g_ref[i].phony) continue; bool shown = m.out.find("] " + plain_command(g_ref[i]) + "\n") != std::string::npos; if (shown) listed++; if (has_id(expect, g_ref[i].ordinal)) all = all && shown; }
     VERIF_ASSERT(all, "C19: -n lists every command the real build of the same target runs");
